@@ -54,7 +54,7 @@ func (q *arrayQueue[T]) Enqueue(val T) {
 
 	if q.frontNode == nil {
 		q.frontNode, q.frontIndex = newArrayNode[T](q.nodeSize, nil), 0
-		q.rearNode = q.frontNode
+		q.rearNode, q.rearIndex = q.frontNode, 0
 	} else if q.rearIndex == q.nodeSize {
 		q.rearNode.next = newArrayNode[T](q.nodeSize, nil)
 		q.rearNode, q.rearIndex = q.rearNode.next, 0
